@@ -22,7 +22,7 @@ func init() {
 	Register(&Prop{
 		ID:    "C08",
 		Title: "A live name changes owner only with its current owner's consent, who is paid",
-		Cases: func(t string) int { return tierN(t, 300, 6000) },
+		Cases: func(t string) int { return tierN(t, 300, 30000) },
 		Run:   runRnsHistory,
 		Rule: "case = one generated history of 20..32 rns messages (all 14 message types) by 4 accounts over 3-6 names (two seeded in genesis with expiry heights 4..8 and 11..18 so that expiry and re-registration happen inside the run, optionally a long-lived seeded name, fresh names, a locked free Init name), PRNG interleaving mixed with targeted stale sequences " +
 			"(list->transfer->buy, list->bid->accept->buy, list->expire->re-register->buy, previous owner replays update/add-record/del-record/delist/transfer/list/accept, register exactly at the expiry height); " +
